@@ -7,6 +7,7 @@ CONSTANTS
   MaxQ = 3
   BugInitEmpty <- MCBugInitEmpty
   BugStaleInit <- MCBugStaleInit
+  BugRelinkDrop <- MCBugRelinkDrop
   WSet <- MCWSet
   Gen = FALSE
 VIEW View
